@@ -27,13 +27,21 @@ CONSTANTS
   Flags,         \* corruption flags available to Mint ("ok" always available)
   MaxDeliveries, \* bound on Process* steps
   HeadersFirst,  \* TRUE: all headers are delivered (in id order) before any body (C03 setting)
-  TxShapes       \* "none" | "small" (1-in-1-out) | "locks" (1-in-1-out, lock heights) | "full" (<=2 in, <=2 out, locks)
+  TxShapes       \* "none" | "small" (1-in-1-out) | "locks" (1-in-1-out, lock heights) | "nrd" (1-in-1-out, NRD kernels) | "full" (<=2 in, <=2 out, locks)
 
 Reward == 4      \* units (1 unit = 15 grin in the harness)
 Fee == 1
 
 NoTx == [ins |-> {}, outs |-> {}, lock |-> 0]
 HasTx(t) == t.outs # {}
+\* the `lock` field of a transaction encodes its kernel: 0 = plain, 1..999 = height-locked at that
+\* height, 1000 + 10*k + r = no-recent-duplicate kernel with excess key k and relative height r
+IsNrd(t) == t.lock >= 1000
+NrdKey(t) == (t.lock - 1000) \div 10
+NrdRel(t) == (t.lock - 1000) % 10
+LockH(t) == IF t.lock < 1000 THEN t.lock ELSE 0
+NrdKeys == {1, 2}
+NrdFrom == 9      \* first height whose header version allows NRD kernels (AutomatedTesting: HF every 3 blocks)
 
 VARIABLES
   tree,     \* [0..k -> block record] all minted blocks
@@ -84,7 +92,8 @@ LeafOf(u, c) == {i \in u.unspent : u.outs[i].c = c}       \* unspent leaves carr
 BodyOK(b) ==
   LET t == tree[b].tx IN
   /\ tree[b].flag \notin {"badSums"}
-  /\ t.lock <= Height(b)
+  /\ LockH(t) <= Height(b)
+  /\ (IsNrd(t) => Height(b) >= NrdFrom)
   /\ t.ins \cap t.outs = {}
   /\ HasTx(t) => SumVal(t.ins) = SumVal(t.outs) + Fee
 
@@ -116,10 +125,21 @@ GenesisU == [outs |-> <<[c |-> 0, cb |-> TRUE, h |-> 0]>>, unspent |-> {1}]
 RECURSIVE Replay(_)
 Replay(b) == IF b = 0 THEN GenesisU ELSE ApplyU(Replay(Parent(b)), b)
 
+\* heights (ascending) at which an NRD kernel with excess key k occurs on the chain ending in b
+RECURSIVE NrdHist(_, _)
+NrdHist(b, k) == IF b = 0 THEN <<>>
+                 ELSE IF IsNrd(tree[b].tx) /\ NrdKey(tree[b].tx) = k THEN Append(NrdHist(Parent(b), k), Height(b))
+                 ELSE NrdHist(Parent(b), k)
+\* relative lock: the same excess must not have occurred fewer than `rel` blocks earlier on this fork
+NrdOK(hist, b) == LET t == tree[b].tx IN
+                  IsNrd(t) => (hist = <<>> \/ Height(b) - hist[Len(hist)] >= NrdRel(t))
+
 RECURSIVE Valid(_)
 Valid(b) == IF b = 0 THEN TRUE
             ELSE /\ Valid(Parent(b)) /\ HeaderOK(b) /\ BodyOK(b)
-                 /\ UtxoOK(Replay(Parent(b)), b) /\ LateOK(b)
+                 /\ UtxoOK(Replay(Parent(b)), b)
+                 /\ (IsNrd(tree[b].tx) => NrdOK(NrdHist(Parent(b), NrdKey(tree[b].tx)), b))
+                 /\ LateOK(b)
 
 RECURSIVE HeaderChainOK(_)
 HeaderChainOK(b) == IF b = 0 THEN TRUE ELSE HeaderOK(b) /\ HeaderChainOK(Parent(b))
@@ -130,6 +150,7 @@ HeaderChainOK(b) == IF b = 0 THEN TRUE ELSE HeaderOK(b) /\ HeaderChainOK(Parent(
 InitNode == [hdrs |-> {0}, bodies |-> {0}, head |-> 0, hhead |-> 0,
              u |-> GenesisU,
              opos |-> {<<0, 1>>},          \* output_pos index: set of <<commit, leaf>>
+             nrd |-> [k \in NrdKeys |-> <<>>],    \* recent-kernel index: excess key -> heights (stack)
              spentIdx |-> [x \in {0} |-> {}],     \* block -> set of leaves it spent (blocks applied on a winning chain)
              sums |-> {0},                 \* blocks with stored block sums
              orph |-> <<>>]                \* orphan pool in insertion order
@@ -160,6 +181,9 @@ ImplApply(st, b) ==
                \cup {<<new[j].c, k + j>> : j \in 1..Len(new)},
       spentIdx |-> [x \in DOMAIN st.spentIdx \cup {b} |-> IF x = b THEN sp ELSE st.spentIdx[x]],
       sums |-> st.sums \cup {b},
+      nrd |-> IF IsNrd(tree[b].tx)
+              THEN [st.nrd EXCEPT ![NrdKey(tree[b].tx)] = Append(@, Height(b))]
+              ELSE st.nrd,
       ok |-> st.ok]
 
 \* rewind_single_block: truncate to the previous header's size, unspend via the spent index,
@@ -171,8 +195,14 @@ ImplRewindOne(st, b) ==
       created == {BlockOuts(b)[j].c : j \in 1..Len(BlockOuts(b))}
       u2 == [outs |-> SubSeq(u.outs, 1, keep), unspent |-> {i \in u.unspent : i <= keep} \cup sp]
   IN [st EXCEPT !.u = u2,
+                !.nrd = IF IsNrd(tree[b].tx)       \* kernel_index.rewind: drop entries above the previous header
+                        THEN [@ EXCEPT ![NrdKey(tree[b].tx)] = SelectSeq(@, LAMBDA h : h < Height(b))]
+                        ELSE @,
                 !.opos = {p \in st.opos : p[1] \notin created /\ p[1] \notin {u2.outs[i].c : i \in sp}}
                          \cup {<<u2.outs[i].c, i>> : i \in sp}]
+
+\* apply_kernel_rules: peek the most recent entry of the recent-kernel index
+ImplNrdOK(idx, b) == IsNrd(tree[b].tx) => NrdOK(idx[NrdKey(tree[b].tx)], b)
 
 RECURSIVE ImplRewindTo(_, _, _)
 \* rewind from block `from` (current extension head) down to ancestor `to`
@@ -183,7 +213,7 @@ RECURSIVE ImplApplyFork(_, _, _)
 ImplApplyFork(st, blocks, i) ==
   IF i > Len(blocks) \/ ~st.ok THEN st
   ELSE LET b == blocks[i] IN
-       IF ImplUtxoOK(st.u, st.opos, b) /\ LateOK(b)
+       IF ImplUtxoOK(st.u, st.opos, b) /\ ImplNrdOK(st.nrd, b) /\ LateOK(b)
        THEN ImplApplyFork(ImplApply(st, b), blocks, i + 1)
        ELSE [st EXCEPT !.ok = FALSE]
 
@@ -222,18 +252,19 @@ BodyStage(n1, b) ==
   ELSE
     LET prev == Parent(b)
         fp == LCA(n1.head, prev)
-        st0 == [u |-> n1.u, opos |-> n1.opos, spentIdx |-> n1.spentIdx, sums |-> n1.sums, ok |-> TRUE]
+        st0 == [u |-> n1.u, opos |-> n1.opos, spentIdx |-> n1.spentIdx, sums |-> n1.sums, nrd |-> n1.nrd, ok |-> TRUE]
         st1 == ImplRewindTo(st0, n1.head, fp)
         st2 == ImplApplyFork(st1, Segment(fp, prev), 1)
     IN IF \E x \in {Segment(fp, prev)[i] : i \in 1..Len(Segment(fp, prev))} : x \notin n1.bodies
        THEN [nd |-> n1, res |-> "reject"]                                  \* a fork body is missing (get_block fails)
        ELSE IF ~st2.ok THEN [nd |-> n1, res |-> "reject"]
        ELSE IF ~ImplUtxoOK(st2.u, st2.opos, b) THEN [nd |-> n1, res |-> "reject"]
+       ELSE IF ~ImplNrdOK(st2.nrd, b) THEN [nd |-> n1, res |-> "reject"]
        ELSE IF ~LateOK(b) THEN [nd |-> n1, res |-> "reject"]
        ELSE LET st3 == ImplApply(st2, b) IN
             IF Work(b) > Work(n1.head)
             THEN [nd |-> [n1 EXCEPT !.u = st3.u, !.opos = st3.opos, !.spentIdx = st3.spentIdx,
-                                    !.sums = st3.sums, !.bodies = @ \cup {b}, !.head = b],
+                                    !.sums = st3.sums, !.nrd = st3.nrd, !.bodies = @ \cup {b}, !.head = b],
                   res |-> "ok_head"]
             ELSE [nd |-> [n1 EXCEPT !.bodies = @ \cup {b}], res |-> "ok_fork"]
 
@@ -276,7 +307,9 @@ TxChoices(h) ==
        {[ins |-> I, outs |-> O, lock |-> lk] :
           I \in Subsets12(AllCommits, TxShapes = "full"),
           O \in Subsets12(Pool, TxShapes = "full"),
-          lk \in (IF TxShapes \in {"full", "locks"} THEN {0, h, h + 1} ELSE {0})}
+          lk \in (IF TxShapes \in {"full", "locks"} THEN {0, h, h + 1}
+                  ELSE IF TxShapes = "nrd" THEN {0} \cup {1000 + 10 * k + r : k \in NrdKeys, r \in {1, 2}}
+                  ELSE {0})}
 
 Mint(p, d, t, f) ==
   LET id == Cardinality(Ids) IN
@@ -342,7 +375,7 @@ Spec == Init /\ [][Next]_vars
 -----------------------------------------------------------------------------
 (* Properties *)
 
-BestProj(nd) == <<nd.head, nd.u, nd.opos,
+BestProj(nd) == <<nd.head, nd.u, nd.opos, nd.nrd,
                   [b \in {x \in DOMAIN nd.spentIdx : IsAnc(x, nd.head)} |-> nd.spentIdx[b]],
                   {b \in nd.sums : IsAnc(b, nd.head)}>>
 
@@ -365,9 +398,15 @@ SumsInv == \A b \in Ids : IsAnc(b, n.head) => b \in n.sums
 
 \* C13: every best-chain block satisfied maturity and lock rules w.r.t. its own ancestors
 MaturityLockInv == \A b \in Ids : (b # 0 /\ IsAnc(b, n.head)) =>
-                      /\ tree[b].tx.lock <= Height(b)
+                      /\ LockH(tree[b].tx) <= Height(b)
                       /\ LET u == Replay(Parent(b)) IN
                            \A c \in tree[b].tx.ins : \A i \in LeafOf(u, c) : u.outs[i].cb => u.outs[i].h + Maturity <= Height(b)
+
+\* C13 (relative locks): the recent-kernel index equals the NRD history of the best chain, and every
+\* best-chain NRD kernel respects its relative height w.r.t. its own ancestors
+NrdInv == /\ \A k \in NrdKeys : n.nrd[k] = NrdHist(n.head, k)
+          /\ \A b \in Ids : (b # 0 /\ IsNrd(tree[b].tx) /\ IsAnc(b, n.head)) =>
+                NrdOK(NrdHist(Parent(b), NrdKey(tree[b].tx)), b)
 
 \* C06: a failing call, or one that does not move the head, leaves the best-chain state alone
 RejectLeavesState == [][(n'.head = n.head) => BestProj(n') = BestProj(n)]_vars
